@@ -282,11 +282,11 @@ class Evaluator(object):
         # how many candidates a 'select any/one ... where' examines is not fixed by the language: a call in
         # such a clause could have effects a different number of times
         self.blocks.append({'selected': rec})
-        self.in_lazy_where += 1 if lazy else 0
+        self.in_lazy_where += 1
         try:
             return self.truth(self.expr(clause))
         finally:
-            self.in_lazy_where -= 1 if lazy else 0
+            self.in_lazy_where -= 1
             self.blocks.pop()
 
     def truth(self, v):
@@ -377,7 +377,7 @@ class Evaluator(object):
             if self.in_logical:
                 raise Discard('call inside a logical operand')
             if self.in_lazy_where:
-                raise Discard('call inside the where clause of a select any/one')
+                raise Discard('call inside a where clause (how often and over which extent it runs is not fixed)')
             args = {}
             for p in e['parameter_list']['children']:
                 args[p['name']] = self.expr(p['expression'])
